@@ -667,6 +667,42 @@ class CallMixin:
                     return StrV(pieces)
                 return Term("join", (recv, x), kind="str", node=node)
             if attr == "format":
+                if isinstance(recv, Const):
+                    import string as _string
+                    pieces2: List[Any] = []
+                    auto = 0
+                    ok = True
+                    try:
+                        parsed = list(_string.Formatter().parse(recv.value))
+                    except ValueError:
+                        parsed = []
+                        ok = False
+                    for lit, field, spec, conv in parsed:
+                        if lit:
+                            pieces2.append(lit)
+                        if field is None:
+                            continue
+                        if spec:
+                            ok = False
+                            break
+                        if field == "":
+                            v = args[auto] if auto < len(args) else None
+                            auto += 1
+                        elif field.isdigit():
+                            v = args[int(field)] if int(field) < len(args) else None
+                        else:
+                            v = kwargs.get(field)
+                        if v is None:
+                            ok = False
+                            break
+                        if isinstance(v, Const) and isinstance(v.value, str) and not conv:
+                            pieces2.append(v.value)
+                        elif isinstance(v, StrV) and not conv:
+                            pieces2.extend(v.pieces)
+                        else:
+                            pieces2.append((v, conv or ""))
+                    if ok:
+                        return StrV(pieces2)
                 return Term("format", (recv,) + tuple(args) + tuple(kwargs.values()), kind="str", node=node)
             if attr in ("split", "rsplit", "splitlines"):
                 return Term("mcall", (recv, attr) + tuple(args), kind="list", node=node)
